@@ -198,6 +198,10 @@ def simp(t):
         if op in ("is", "isnot") and is_const(a) and is_const(b) and (a[1] is None or b[1] is None):
             same = a[1] is None and b[1] is None
             return C(same if op == "is" else not same)
+        if op in ("is", "isnot", "==", "!=") and C(None) in (a, b):
+            o = b if a == C(None) else a
+            if o[0] in ("list", "tup", "dict", "set", "compr", "cat") or (o[0] == "call" and o[1] in ("list", "set", "dict", "tuple", "frozenset", "sorted", "len", "range")):
+                return C(op in ("isnot", "!="))          # a freshly built container is not None
         if is_const(a) and is_const(b) and op in ("<", "<=", "==", "!="):
             try:
                 return C({"<": a[1] < b[1], "<=": a[1] <= b[1], "==": a[1] == b[1], "!=": a[1] != b[1]}[op])
@@ -546,6 +550,7 @@ class SymX:
             return st
         if isinstance(s, ast.Assign):
             v = ev(s.value)
+            self._value_call_effect(v, st)
             for t in s.targets:
                 self.assign(t, v, st, f, depth)
             return st
@@ -772,6 +777,16 @@ class SymX:
                     return ("list", tuple(("tup", tuple(a[1][i] if a[0] in ("tup", "list") else simp(("idx", a, C(i))) for a in t[2])) for i in range(n)))
         return t
 
+    _PURE_METHODS = frozenset(("get", "items", "keys", "values", "index", "count", "copy", "join", "split", "format", "replace", "strip", "lower", "upper",
+                               "startswith", "endswith", "union", "intersection", "difference", "issubset", "issuperset", "isdigit", "find", "rstrip", "lstrip",
+                               "random", "randrange", "randint", "choices", "choice", "uniform", "sample", "getrandbits"))
+
+    def _value_call_effect(self, v, st):
+        """A method call whose result is kept (`removed = state.prune(...)`, `for x in state.prune(...)`) still happens: it is
+        recorded like the same call in statement position, so that rules about *which calls are made* see it."""
+        if isinstance(v, tuple) and v and v[0] == "mcall" and v[2] not in self._PURE_METHODS and not (is_const(v[1]) or v[1][0] in ("list", "tup", "dict", "set")):
+            st.effects.append((self._alive(st), "call", v))
+
     def _bind_loop_target(self, tgt, loop, st, f, depth):
         elem = ("elem", loop.id)
         if loop.enumerated:
@@ -788,6 +803,7 @@ class SymX:
         loop = Loop(next(self._ids), "for", s)
         self.loops[loop.id] = loop
         loop.source = self._iter_source(s.iter, st, f, depth, loop)
+        self._value_call_effect(loop.source, st)
         # a search over a short literal table that leaves by `return` (`for k, v in TABLE: if x == k: return v`) is
         # executed element by element; the loop summary cannot express an early return anyway
         src_t = loop.source
@@ -1116,7 +1132,15 @@ class SymX:
                 hi = ev(e.slice.upper) if e.slice.upper else C(None)
                 stp = ev(e.slice.step) if e.slice.step else C(None)
                 return ("slice", base, lo, hi, stp)
-            return simp(("idx", base, ev(e.slice)))
+            i = ev(e.slice)
+            if base[0] == "compr" and base[1] in self.loops:
+                # a table computed position by position from another list: table[k] is the element expression at source[k]
+                L = self.loops[base[1]]
+                if L.ckind == "list" and not L.filters and L.whole and not L.inner and L.elt is not None and not L.enumerated:
+                    el, ps = ("elem", L.id), ("pos", L.id)
+                    at = simp(("idx", L.source, i))
+                    return deep_simp(subst(L.elt, lambda x: at if x == el else (i if x == ps else None)))
+            return simp(("idx", base, i))
         if isinstance(e, ast.Tuple):
             return ("tup", tuple(ev(x) for x in e.elts))
         if isinstance(e, ast.List):
@@ -1566,6 +1590,13 @@ def classify(loop):
         if u[0] == "cat" and u[1] == acc and u[2][0] == "list" and len(u[2][1]) == 1 and not mentions_acc(u[2], loop.id):
             out[v] = Fold("COLLECT", init=init, term=u[2][1][0])
             continue
+        # COLLECT under a guard of its own (a partition loop: `if c: a.append(x) else: b.append(x)` - the two lists have
+        # complementary filters, so there is no common guard for strip_filter to take out)
+        if u[0] == "ite" and not mentions_acc(u[1], loop.id) and (u[3] == acc or u[2] == acc):
+            inner, own = (u[2], u[1]) if u[3] == acc else (u[3], mk_not(u[1]))
+            if inner[0] == "cat" and inner[1] == acc and inner[2][0] == "list" and len(inner[2][1]) == 1 and not mentions_acc(inner[2], loop.id):
+                out[v] = Fold("COLLECT", init=init, term=inner[2][1][0], own_filter=own)
+                continue
         # MAX / MIN, including the None-seeded idiom `if best is None or e < best: best = e`
         none_seeded = False
         truthy_seed = False
